@@ -77,6 +77,9 @@ def run_program(case, inp, geom, jnp):
                     r = regs[i] * st["c"] if si % 2 == 0 else st["c"] * regs[i]
                 elif op == "TProd":
                     r = regs[i] * regs[st["j"] - 1]
+                    bad = functional_mul(geom, jnp, D, regs[i], regs[st["j"] - 1], want)
+                    if bad:
+                        return side, si, bad
                 elif op == "Transpose":
                     r = regs[i].transpose([a - 1 for a in st["perm"]])
                 elif op == "Contract":
@@ -111,6 +114,28 @@ def run_program(case, inp, geom, jnp):
             if np.asarray(r.data).ravel().tolist() != [float(v) for v in want["val"]]:
                 return side, si, "values"
             regs.append(r)
+    return None
+
+
+def functional_mul(geom, jnp, D, a, b, want):
+    """geom.mul (the functional form of the product, with `a_offset` / `b_offset` leading batch / channel axes) against the
+    specification's TProd: every leading entry is the product of the corresponding entries; an operand without leading axes is
+    shared by all entries of the other.  Leading entries are small integer multiples of the operands, so the comparison is exact."""
+    w = np.array(want["val"], dtype=np.float64).reshape(tuple(want["dims"]) + (D,) * want["k"])
+    A, B = np.asarray(a.data, dtype=np.float32), np.asarray(b.data, dtype=np.float32)
+    for oa, ob in ((1, 1), (2, 2), (1, 0), (0, 1), (0, 0)):
+        lead = (2,) if max(oa, ob) == 1 else (2, 2) if max(oa, ob) == 2 else ()
+        idx = np.indices(lead) if lead else None
+        ma = (1 + idx[0]) if oa else None
+        mb = (1 + idx[-1] if oa else 2 - idx[0]) if ob else None
+        ea = lambda m, X: X if m is None else m.reshape(lead + (1,) * X.ndim).astype(np.float32) * X
+        got = np.asarray(geom.mul(D, jnp.asarray(ea(ma, A)), jnp.asarray(ea(mb, B)), oa, ob), dtype=np.float64)
+        mult = (1 if ma is None else ma) * (1 if mb is None else mb)
+        exp = w if not lead else np.asarray(mult, dtype=np.float64).reshape(lead + (1,) * w.ndim) * w
+        if got.shape != exp.shape:
+            return "geom.mul(a_offset=%d, b_offset=%d): result shape %s, expected %s" % (oa, ob, got.shape, exp.shape)
+        if not np.array_equal(got, exp):
+            return "geom.mul(a_offset=%d, b_offset=%d): values differ from the product of the corresponding entries" % (oa, ob)
     return None
 
 
